@@ -5,6 +5,9 @@ import TplModel.Exp.Parse
 import TplModel.Exp.Eval
 import TplModel.Driver.Values
 import TplModel.Html.Engine
+import TplModel.Exp.ScopeTree
+import TplModel.Sys.Reload
+import TplModel.Sys.FsParse
 import TplModel.Proofs.RenderRefineBase
 /-! Request handlers of the JSON-lines driver: one JSON object in, one JSON object out. -/
 namespace Ops
@@ -109,6 +112,66 @@ def scopegetOp (j : Json) : Json :=
   | .absent => Json.mkObj [("r", "absent")]
   | .failed => Json.mkObj [("r", "failed")]
 
+
+/-- scope trees built through the public API: {"leaf":tv} | {"combine":[child,parent]} | {"default":tree} -/
+partial def scopeOfJson (j : Json) : EV.Scope :=
+  match j.getObjVal? "combine" with
+  | .ok (.arr #[c, p]) => EV.Combine (scopeOfJson c) (scopeOfJson p)
+  | _ =>
+    match j.getObjVal? "default" with
+    | .ok t => EV.WithDefaultScope (scopeOfJson t)
+    | _ => EV.NewScope (valOfJson ((j.getObjVal? "leaf").toOption.getD .null))
+
+def scopetreeOp (j : Json) : Json :=
+  let sc := scopeOfJson ((j.getObjVal? "tree").toOption.getD .null)
+  match sc.get ((str? j "name").getD "") with
+  | .found v => Json.mkObj [("r", "found"), ("v", canon v)]
+  | .absent => Json.mkObj [("r", "absent")]
+  | .failed => Json.mkObj [("r", "failed")]
+
+/-- renderer with reload (render.go): {"hot":b,"first":build,"ops":[{"k":"reload","b":build} | {"k":"request","name":n,"b":build,"hdr":b} | {"k":"get","name":n,"b":build}]}
+    build = null (fails) | {"id":n,"names":[…]} -/
+def buildOfJson (j : Json) : RL.Build :=
+  match j with
+  | .null => .fail
+  | _ => .ok (RL.Mgr.ofList ((nat? j "id").getD 0) (((j.getObjValAs? (Array Nat) "names").toOption.getD #[]).toList))
+
+def resJ : RL.Res → Json
+  | .served id found => Json.mkObj [("served", id), ("found", found)]
+  | .buildErr => "buildErr"
+  | .noManager => "noManager"
+
+def reloadOp (j : Json) : Json :=
+  let hot := (bool? j "hot").getD false
+  let first := buildOfJson ((j.getObjVal? "first").toOption.getD .null)
+  let ops := ((arr? j "ops").getD #[]).toList.map fun o =>
+    let b := buildOfJson ((o.getObjVal? "b").toOption.getD .null)
+    match str? o "k" with
+    | some "reload" => RL.Op.reload b
+    | some "request" => RL.Op.request ((nat? o "name").getD 0) b ((bool? o "hdr").getD false)
+    | _ => RL.Op.getTemplate ((nat? o "name").getD 0) b
+  let outs := RL.run hot first ops
+  Json.mkObj [("initErr", Json.bool (RL.init hot first).2), ("outs", Json.arr (outs.toArray.map fun o =>
+    match o with
+    | .reloadOk => Json.str "reloadOk"
+    | .reloadErr => Json.str "reloadErr"
+    | .request r ct => Json.mkObj [("request", resJ r), ("ct", ct)]
+    | .getTemplate r => Json.mkObj [("get", resJ r)]))]
+
+/-- manager.Parse over an abstract walk: {"suffix":s,"entries":[{"path":p,"dir":b,"walkErr":b,"openErr":b,"loadErr":b,"defines":[…]}]} -/
+def fsparseOp (j : Json) : Json :=
+  let suffix := (str? j "suffix").getD ""
+  let entries := ((arr? j "entries").getD #[]).toList.map fun e =>
+    ({ path := (str? e "path").getD "", isDir := (bool? e "dir").getD false, walkErr := (bool? e "walkErr").getD false,
+       openErr := (bool? e "openErr").getD false,
+       content := { loadErr := (bool? e "loadErr").getD false,
+                    defines := ((e.getObjValAs? (Array String) "defines").toOption.getD #[]).toList } } : FP.Entry)
+  let (r, st) := FP.run (fun p => p.endsWith suffix) entries
+  let rs : String := match r with
+    | .ok => "ok"
+    | .err .walk => "walk" | .err .open => "open" | .err .load => "load" | .err .duplicate => "duplicate"
+  Json.mkObj [("r", rs), ("files", Json.arr (st.files.toArray.map Json.str)), ("templates", Json.arr (st.templates.toArray.map Json.str)),
+    ("opens", Json.arr (st.opens.toArray.map Json.str)), ("closes", Json.arr (st.closes.toArray.map Json.str))]
 
 /-! ### whole engine: load files into a manager, look a template up, execute it (faithful model and specification) -/
 
